@@ -1,18 +1,28 @@
 import Compass.Drv.Proto
+import Compass.Drv.C15
 import Compass.Model.Scc
 
 /-!
-Driver for C18.  Case line:
-  `n  m (s d)*m  a (k e*k)*a  r (k e*k)*r  impl`
-where `adj`/`rev` are the `keys()` sequences read back from the real `Graph`, and `impl` is the
-implementation's own (canonicalised) component list, `s k (len v*len)*k`, or `n` when it returned an error.
-Output line:
+Driver for C18.  Every case line starts with its kind.
+
+`scc n  m (s d)*m  a (k e*k)*a  r (k e*k)*r  impl`
+  `adj`/`rev` are the `keys()` sequences read back from the real `Graph`, `impl` is the implementation's own
+  (canonicalised) component list, `s k (len v*len)*k`, or `n` when it returned an error.  Output:
   `wf b std s ok k (len v*len)*k L (len v*len) chk cm ci`   or   `wf b std s err <kind>`
-`b` = the model's well-formedness test of the graph; `s` = the adjacency slots are exactly those of
-`Graph.ofEdges` (what `EdgeLoader` builds: edge ids in insertion order; `-` above `stdLimit`); components sorted inside and among themselves;
-`L` = the model's `largest_strongly_connected_component` (sorted); `cm`/`ci` = the verdict of the verified
-checker `isSccPartition` on the model's / the implementation's component list (`-` when the graph is not
-well-formed or larger than `chkLimit` vertices).  Applying the checker is *testing*, not proof.
+  `b` = the model's well-formedness test of the graph; `s` = the adjacency slots are exactly those of
+  `Graph.ofEdges` (what `EdgeLoader` builds: edge ids in insertion order; `-` above `stdLimit`);
+  components sorted inside and among themselves; `L` = the model's `largest_strongly_connected_component`
+  (sorted); `cm`/`ci` = the verdict of the verified checker `isSccPartition` on the model's / the
+  implementation's component list (`-` when the graph is not well-formed or larger than `chkLimit` vertices).
+  Applying the checker is *testing*, not proof.
+`deep <the same graph fields>`: a graph with a deep DFS tree (the real code ran in a forked child): `ok … L …`.
+`big <shape> <n>`: too large for the list-based visited set of the model: `not-modelled` (oracle only).
+`dfs <graph fields> rev start visited stack`: `depth_first_search` (`rev` = 0) / `reverse_depth_first_search`
+  called directly: `ok <visited, sorted> <stack in Vec order>` or `err <kind>`.
+`acc <vertex records> <edge records> <adj slots as (key value) pairs> <rev slots> <edge probes> <vertex probes>`:
+  every accessor of `graph.rs` (model: `Model/Graph.lean` of C15 plus the additions in `Model/Scc.lean`).
+`file <descr> nE nV <edge file> <vertex file> impl`: `Graph::from_files` (model: `graphFromFiles` of C15, files
+  abstracted as there) followed by the component analysis of `Graph.ofNet` of the loaded graph.
 -/
 namespace Compass.Drv.C18
 open Compass Compass.Proto Compass.Scc
@@ -42,30 +52,153 @@ def bit (b : Bool) : String := if b then "1" else "0"
 
 def pair : P (Nat × Nat) := do let s ← nat; let d ← nat; pure (s, d)
 
-def case : P String := do
+/-- `n  m (s d)*m  a (k e*k)*a  r (k e*k)*r` -/
+def graphP : P (Scc.Graph × List (Nat × Nat)) := do
   let n ← nat
   let edges ← listOf pair
   let adj ← listOf (listOf nat)
   let rev ← listOf (listOf nat)
+  pure ({ n := n, edges := edges.toArray, adj := adj.toArray, rev := rev.toArray }, edges)
+
+def sccCase : P String := do
+  let (g, edges) ← graphP
+  let n := g.n
   let impl ← optOf (listOf (listOf nat))
-  let g : Graph := { n := n, edges := edges.toArray, adj := adj.toArray, rev := rev.toArray }
   let stdFlag :=
     if n * edges.length ≤ stdLimit then
-      let std := Graph.ofEdges n edges
+      let std := Scc.Graph.ofEdges n edges
       bit (g.adj == std.adj && g.rev == std.rev)
     else "-"
   let wf := s!"{bit g.wfb} std {stdFlag}"
   let check := g.wfb && n ≤ chkLimit
-  match allScc g with
+  -- the model of the code as it is: frame-list searches (`allSccIter`, proved equal to `allScc`)
+  match allSccIter g with
   | .error e => pure s!"wf {wf} err {errOut e}"
   | .ok cs =>
     -- `largest_strongly_connected_component` recomputes the components; the model does the same
-    match largestScc g with
+    match largestSccIter g with
     | .error e => pure s!"wf {wf} err {errOut e}"
     | .ok big =>
       let cm := if check then bit (isSccPartition g cs) else "-"
       let ci := if check then (match impl with | some ics => bit (isSccPartition g ics) | none => "0") else "-"
       pure s!"wf {wf} ok {compsOut (canon cs)} L {listOut (sortNat big)} chk {cm} {ci}"
+
+def deepCase : P String := do
+  let (g, _) ← graphP
+  match allSccIter g, largestSccIter g with
+  | .ok cs, .ok big => pure s!"ok {compsOut (canon cs)} L {listOut (sortNat big)}"
+  | _, _ => pure "err"
+
+def dfsCase : P String := do
+  let (g, _) ← graphP
+  let rev ← bool
+  let start ← nat
+  let vis ← listOf nat
+  let st ← listOf nat
+  -- the stack `Vec` has its last push at the end; the model's list has it at the head.  The start vertex may
+  -- be an id that no record mentions: its own frame is added to the budget of turns.
+  let r :=
+    if rev then dfsIter g.inEdges g.srcOf (g.turns + (g.inEdges start).length + 1) start (vis, st.reverse)
+    else dfsIter g.outEdges g.dstOf (g.turns + (g.outEdges start).length + 1) start (vis, st.reverse)
+  match r with
+  | .error e => pure s!"err {errOut e}"
+  | .ok (vis', st') => pure s!"ok {listOut (sortNat vis'.eraseDups)} {listOut st'.reverse}"
+
+/-! #### accessors -/
+
+open Compass.Drv.C15 (natList vertexOut edgeOut tripletsOut)
+
+def netErrOut : NetErr → String
+  | .edgeNotFound e => s!"ne {e}"
+  | .vertexNotFound v => s!"nv {v}"
+
+def exOut (f : β → String) : Except NetErr β → String
+  | .ok b => "s " ++ f b
+  | .error e => netErrOut e
+
+def attrsOut (l : List (Vertex Float × Edge Float × Vertex Float)) : String :=
+  joinSp (toString l.length :: l.map (fun (a, e, b) => joinSp [vertexOut a, edgeOut e, vertexOut b]))
+
+def vertexRec : P (Vertex Float) := do
+  let i ← nat; let x ← float; let y ← float
+  pure { vertexId := i, x := x, y := y }
+
+def edgeRec : P (Edge Float) := do
+  let i ← nat; let s ← nat; let d ← nat; let x ← float
+  pure { edgeId := i, src := s, dst := d, distance := x }
+
+def edgeProbe (g : Compass.Graph Float) (e : Nat) : String :=
+  joinSp [s!"e {e}",
+    exOut edgeOut (g.getEdge e),
+    exOut toString (g.srcVertexId e),
+    exOut toString (g.dstVertexId e),
+    exOut toString (g.incidentVertex e .forward),
+    exOut toString (g.incidentVertex e .reverse),
+    exOut (fun (s, ed, d) => joinSp [vertexOut s, edgeOut ed, vertexOut d]) (g.edgeTriplet e)]
+
+def vertexProbe (g : Compass.Graph Float) (v : Nat) : String :=
+  joinSp [s!"v {v}",
+    exOut vertexOut (g.getVertex v),
+    natList (g.outEdges v),
+    natList (g.inEdges v),
+    natList (g.outEdgesIter v),
+    natList (g.inEdgesIter v),
+    natList (g.incidentEdges v .forward),
+    natList (g.incidentEdges v .reverse),
+    natList (g.incidentEdgesIter v .forward),
+    natList (g.incidentEdgesIter v .reverse),
+    exOut tripletsOut (g.incidentTripletIds v .forward),
+    exOut tripletsOut (g.incidentTripletIds v .reverse),
+    exOut attrsOut (g.incidentTripletAttributes v .forward),
+    exOut attrsOut (g.incidentTripletAttributes v .reverse)]
+
+def accCase : P String := do
+  let vs ← listOf vertexRec
+  let es ← listOf edgeRec
+  let adj ← listOf (listOf pair)
+  let rev ← listOf (listOf pair)
+  let pe ← listOf nat
+  let pv ← listOf nat
+  let g : Compass.Graph Float := { adj := adj, rev := rev, edges := es, vertices := vs }
+  pure (joinSp (["acc", toString g.nEdges, toString g.nVertices]
+    ++ pe.map (edgeProbe g) ++ pv.map (vertexProbe g)
+    ++ ["ids", natList g.edgeIds, natList g.vertexIds]))
+
+/-! #### `Graph::from_files`, then the analysis -/
+
+def slotsOut (l : List AdjMap) : String := compsOut (l.map adjKeys)
+
+def fileCase : P String := do
+  let _descr ← next
+  let nE ← optOf nat
+  let nV ← optOf nat
+  let ef ← Compass.Drv.C15.fileP Compass.Drv.C15.edgeRow
+  let vf ← Compass.Drv.C15.fileP Compass.Drv.C15.vertexRow
+  match graphFromFiles ef vf nE nV with
+  | .error e => pure (Compass.Drv.C15.loadErrOut e)
+  | .ok net =>
+    let impl ← optOf (listOf (listOf nat))
+    let g := Scc.Graph.ofNet net
+    let digest := s!"{net.nEdges} {net.nVertices} {slotsOut net.adj} {slotsOut net.rev}"
+    match allSccIter g, largestSccIter g with
+    | .ok cs, .ok big =>
+      -- the checker's verdict on the implementation's list (the diff already compares it with the model's)
+      let chk := if g.wfb && g.n ≤ chkLimit then
+          bit (isSccPartition g cs && (match impl with | some ics => isSccPartition g ics | none => false))
+        else "-"
+      pure s!"ok {digest} wf {bit g.wfb} scc {compsOut (canon cs)} L {listOut (sortNat big)} chk {chk}"
+    | _, _ => pure s!"ok {digest} wf {bit g.wfb} scc err"
+
+def case : P String := do
+  let kind ← next
+  match kind with
+  | "scc" => sccCase
+  | "deep" => deepCase
+  | "big" => pure "not-modelled"
+  | "dfs" => dfsCase
+  | "acc" => accCase
+  | "file" => fileCase
+  | _ => failure
 
 def run (line : String) : String := Proto.run case line
 
